@@ -485,7 +485,7 @@ theorem rawConn_rel (E : EvRel R ev ev') {m2 m2' : Message} (H2 : R m2 m2') (st 
         | none => exact ⟨rfl, H4⟩
         | some tid =>
           simp only []
-          cases getTransport cfg st.trans (str "tcp") (stripBrackets hop.host) hop.port tid with
+          cases getTransport cfg st.trans (str "tcp") (regHost cfg hop.host) hop.port tid with
           | none => exact ⟨rfl, H4⟩
           | some r => exact ⟨rfl, H4⟩
 
